@@ -144,6 +144,8 @@ def run(ctx):
         n = 5000 if ctx.quick() else 30000
         while len(cases) < n:
             cfg = cl.default_cfg(r, cap=r.choice([1, 1, 2, 3, 4]))
+            if r.random() < 0.15:
+                cfg['rtu'] = 1
             k = r.random()
             if k < 0.25:
                 cases.append((cfg, cl.gen_random(r, cfg, r.choice([4, 8, 14]))))
